@@ -66,7 +66,8 @@ CHECKS["C06"] = {
             "Programs: every switch skeleton with <= 2 (thorough 3) clauses x default position x clause bodies, if/else x tails, plus type-directed generated "
             "bindings and callbacks. Proved for ALL programs, class environments and builder states (C06_builder_frame, by induction over the whole model of "
             "typedexpr.rs + tir/builder.rs): the translator never renumbers or retypes a local, never removes a block and never touches a block that has its "
-            "terminator -- a jump once written keeps its meaning. The general theorem that every accepted program passes the checker (C06_builder_ok_full) is stated but not proved. Two genuine defects found by this "
+            "terminator -- a jump once written keeps its meaning; and the first clause of the property itself: in every body the model of tir::build produces, "
+            "every br / br_cond names an existing block and no br names its own block (C06_jump_targets_exist). The general theorem that every accepted program passes the whole checker (C06_builder_ok_full: also the all-paths termination and define-before-use clauses) is stated but not proved. Two genuine defects found by this "
             "check were repaired by fix: commits (F2/F14, F18).",
     "technique": "Coq soundness proof of a CFG/dataflow checker + per-program evaluation of the verified checker on the real IR (translation validation) + differential execution model/code",
     "design_ref": "5 C06",
@@ -80,7 +81,8 @@ CHECKS["C07"] = {
             "declarations, if / else, switch with multi-block case labels, default anywhere, fall-through, break and return -- no assert, index or unwrap of "
             "those files fires (C07_translator_never_panics, from C07_expressions_never_panic and C07_statements_never_panic: the region invariant of the "
             "positional block numbering, by induction over programs through the builder's state monad; the only hypothesis is that a default clause sits at "
-            "a position the parser can produce). The model is tied to the code by this check's Ok / Err / Panic prediction on generated programs. Also "
+            "a position the parser can produce), and neither does what follows in tir::build (finalize_completion_values: its asserts, index and work-list, "
+            "each block patched at most once): bu_panic (build_callback E cb) = None for every environment and callback (C07_build_never_panics). The model is tied to the code by this check's Ok / Err / Panic prediction on generated programs. Also "
             "proved: the constant interpreter terminates on every code body (C07_interp_total); the other modelled "
             "passes carry their own totality theorems (C17_terminates, C12_grid/C12_box: no negative index, C10_unique: the name search always succeeds). "
             "Checked against the code on every run: the model's Ok / Err / Panic prediction for tir::build* equals the implementation's on generated programs "
